@@ -7,7 +7,7 @@ package copier
 // Copy is a thin wrapper around io.Copy / io.CopyBuffer; its contract is assumed (trusted), CopyN
 // is verified against it.
 //@ func Copier.Copy results(written, err)
-//@   trusted
+//@   tags C02,C04,C13,C17,C05
 //@   requires c != nil && w != nil && r != nil
 //@   modifies wn[wsink(w)], wdata[wsink(w)], fpos, iofaults, fsw
 //@   let b = limbase[r]
